@@ -186,6 +186,17 @@ Example C15_example :
   /\ buffered_shuffle 4 [3; 1; 0; 0]%nat [3; 0; 0; 0; 1; 1] (idx 10) false = SOk [3; 4; 5; 6; 7; 1; 8; 9; 0; 2].
 Proof. vm_compute. repeat split. Qed.
 
+(* the hypotheses of the theorems above are satisfiable by non-trivial instances: recorded NumPy
+   draws (0 <= d < B) are usable, ids 0..4 are distinct, a 3-client stream is consistent *)
+Example C15_hypotheses_example :
+  draws_ok 4 [3; 0; 0; 0; 1; 1] /\ draws_ok 4 [-4; 2] /\ NoDup (idx 5) /\
+  Forall (fun o => draws_ok 3 (snd o)) [([2; 0]%nat, [1; 2; 0]); ([0; 1]%nat, [2; 2])] /\
+  consistentb (mk_datasets 0 [(7, 1, 2%nat); (7, 1, 0%nat); (7, 1, 4%nat)]) = true.
+Proof.
+  split; [repeat constructor; discriminate|]. split; [repeat constructor; discriminate|].
+  split; [exact (NoDup_idx 5)|]. split; [repeat constructor; discriminate|reflexivity].
+Qed.
+
 (* buf_size = batch_size IS reachable (client of exactly batch_size rows) ... *)
 Example C15_buffer_full_reachable :
   exists st, pfold (map (fun x : Z => x)) 2 pinit (mk_datasets 0 [(0, 0, 2%nat)]) = SNext st /\ p_bufsize st = 2.
